@@ -569,6 +569,15 @@ RULES = {
                 "for & $x in $$i { $$s }", "for x_r__ in $$i { let $x = * x_r__ ; $$s }"),
     "R0c": Rule("R0c", "cfg!(any(target_arch = \"x86\", target_arch = \"x86_64\")) -> true (fixed target)",
                 'cfg ! ( any ( target_arch = "x86" , target_arch = "x86_64" ) )', "true"),
+    # for r in &mut V { BODY } (V: Vec<T>) -> index loop (definition of IterMut over the vector's slice)
+    "R10v": Rule("R10v", "for r in &mut V { BODY } -> { let mut i__ = 0; while i__ < V.len() { let r = &mut V.as_mut_slice()[i__]; i__ += 1; BODY } }",
+                 "for $r in & mut $v { $$body }",
+                 "{ let mut i__ = 0 ; while i__ < $v . len ( ) { let $r = & mut $v . as_mut_slice ( ) [ i__ ] ; i__ += 1 ; $$body } }"),
+    # unchecked UTF-8 conversion: the unsafe precondition becomes an explicit `requires` of a helper (C15)
+    "R1u": Rule("R1u", "unsafe { String::from_utf8_unchecked(v) } -> __from_utf8_unchecked(v)",
+                "unsafe { String :: from_utf8_unchecked ( $v ) }", "__from_utf8_unchecked ( $v )"),
+    "R12d": Rule("R12d", "V.iter().any(|&b| b >= X) -> __any_ge(V, X)",
+                 "$v . iter ( ) . any ( | & $b | $b >= $$x )", "__any_ge ( $v , $$x )"),
     "R4b": Rule("R4b", "for (a, &b) in I { S } -> for (a, b_r__) in I { let b = *b_r__; S }",
                 "for ( $a , & $b ) in $$i { $$s }",
                 "for ( $a , b_r__ ) in $$i { let $b = * b_r__ ; $$s }"),
